@@ -171,7 +171,9 @@ func Check() *common.Check {
 			"opening/closing line of a multi-line block comment, double-quoted and back-ticked identifiers spelled like keywords, a 100- and a 101-character line), "+
 			"each with LF and CRLF terminators and with/without a terminator after the last line (3-line texts in the quick tier and the additional 4-line texts of the thorough tier: only LF with and CRLF without final terminator); every text goes through 8 rewriters (5 rule fixes, in-process `gosqlx lint --auto-fix`, "+
 			"LSP textDocument/formatting with insertSpaces true/false) and 10 lint rules; distinct = distinct text; non-trivial = the generator's model says at least one layout rule must report a line, "+
-			"or a line starts inside a multi-line literal/comment", len(alphabet)),
+			"or a line starts inside a multi-line literal/comment; "+
+			"plus the backslash family: every one-line text SELECT <q1><c1><q1><sep><q2><c2><q2><tail> with q1,q2 in {',\",`}, c1 = a backslash last/first/in the middle/doubled at the end/absent, sep and tail with/without repeated spaces, "+
+			"c2 with/without repeated spaces (%d lines; LF and CRLF with, LF without final terminator); thorough adds every 2-line text of one such line before/after every fragment of the line alphabet", escFirst, len(alphabet)-escFirst),
 		Assume: []string{
 			"the library tokenizer (pkg/sql/tokenizer) is the judge of token sequences; a difference counts only when an independent reference lexer of the harness sees it too (tokenizer layout bugs belong to C04)",
 			"blanks between a line comment's last character and the line end are not comment content",
@@ -249,7 +251,7 @@ func enumerate(e *common.Enum) {
 			p := n - 1
 			for p >= 0 {
 				idx[p]++
-				if idx[p] < len(alphabet) {
+				if idx[p] < escFirst {
 					break
 				}
 				idx[p] = 0
@@ -264,10 +266,21 @@ func enumerate(e *common.Enum) {
 		// 4-line texts that wrap two arbitrary lines into a multi-line string literal or
 		// block comment: both tiers, all four forms
 		for _, pair := range [][2]string{{"str-open", "str-close"}, {"cmt-open", "cmt-close"}} {
-			for x := range alphabet {
-				for y := range alphabet {
+			for x := 0; x < escFirst; x++ {
+				for y := 0; y < escFirst; y++ {
 					emit([]int{fragIndex(pair[0]), x, y, fragIndex(pair[1])}, forms)
 				}
+			}
+		}
+	}
+	// the backslash family (gen.go): every member as a one-line text; thorough: also
+	// before and after every fragment of the line alphabet
+	for k := escFirst; k < len(alphabet); k++ {
+		emit([]int{k}, forms)
+		if e.Thorough() {
+			for x := 0; x < escFirst; x++ {
+				emit([]int{k, x}, []form{forms[0], forms[3]})
+				emit([]int{x, k}, []form{forms[0], forms[3]})
 			}
 		}
 	}
